@@ -60,8 +60,12 @@ class Finding:
             state, prop, rule, match, replay, text, avoid, commit
 
     def matches(self, v):
-        if self.rule and v['rule'] != self.rule:
-            return False
+        if self.rule:
+            if self.rule.endswith('*'):
+                if not v['rule'].startswith(self.rule[:-1]):
+                    return False
+            elif v['rule'] != self.rule:
+                return False
         fp = v.get('fp') or {}
         for k, want in (self.match or {}).items():
             got = fp.get(k)
